@@ -135,17 +135,17 @@ static void blk_squares(void) {
 	BN_free(A);
 }
 /* ---------------- points ---------------- */
-#define NPTS 14
-static EC_POINT *RPT[NPTS]; static SM2_Z256_POINT LPT[NPTS]; static const char *PNAME[NPTS] = { "O", "O(0,0,0)", "G", "-G", "2G", "P", "-P", "2P", "Q", "P(Z=7)", "G(Z=R-ish)", "3G", "(0,sqrt(b))", "(0,-sqrt(b))" };
+#define NPTS 16
+static EC_POINT *RPT[NPTS]; static SM2_Z256_POINT LPT[NPTS]; static const char *PNAME[NPTS] = { "O", "O(0,0,0)", "G", "-G", "2G", "P", "-P", "2P", "Q", "P(Z=7)", "G(Z=R-ish)", "3G", "(0,sqrt(b))", "(0,-sqrt(b))", "P(stored Z = the integer 1)", "G(stored Z = the integer 2)" }; /* the last two: representatives whose Z in the library's (Montgomery) storage is the WORD 1 / 2, i.e. z = R^-1, 2R^-1: what a test "Z == 1" written against the wrong constant mistakes for a normalised point */
 static void build_points(void) {
 	const EC_GROUP *g = sr_group(); BN_CTX *c = sr_ctx(); BIGNUM *k = BN_new(), *one = BN_new(), *z = BN_new(); BN_one(one);
 	for (int i = 0; i < NPTS; i++) RPT[i] = EC_POINT_new(g);
 	EC_POINT_set_to_infinity(g, RPT[0]); EC_POINT_set_to_infinity(g, RPT[1]); EC_POINT_copy(RPT[2], EC_GROUP_get0_generator(g)); EC_POINT_copy(RPT[3], RPT[2]); EC_POINT_invert(g, RPT[3], c);
 	EC_POINT_dbl(g, RPT[4], RPT[2], c); BN_hex2bn(&k, "3945208F7B2144B13F36E38AC6D39F95889393692860B51A42FB81EF4DF7C5B8"); EC_POINT_mul(g, RPT[5], k, NULL, NULL, c);
 	EC_POINT_copy(RPT[6], RPT[5]); EC_POINT_invert(g, RPT[6], c); EC_POINT_dbl(g, RPT[7], RPT[5], c); BN_hex2bn(&k, "59276E27D506861A16680F3AD9C02DCCEF3CC1FA3CDBE4CE6D54B80DEAC1BC21"); EC_POINT_mul(g, RPT[8], k, NULL, NULL, c);
-	EC_POINT_copy(RPT[9], RPT[5]); EC_POINT_copy(RPT[10], RPT[2]); BN_set_word(k, 3); EC_POINT_mul(g, RPT[11], k, NULL, NULL, c);
+	EC_POINT_copy(RPT[9], RPT[5]); EC_POINT_copy(RPT[10], RPT[2]); EC_POINT_copy(RPT[14], RPT[5]); EC_POINT_copy(RPT[15], RPT[2]); BN_set_word(k, 3); EC_POINT_mul(g, RPT[11], k, NULL, NULL, c);
 	{ /* the two points with x = 0 (b is a square mod p): a zero coordinate in an otherwise ordinary operand */ BIGNUM *bb = BN_new(), *y0 = BN_new(), *x0 = BN_new(); BN_hex2bn(&bb, "28E9FA9E9D9F5E344D5A9E4BCF6509A7F39789F515AB8F92DDBCBD414D940E93"); if (!BN_mod_sqrt(y0, bb, sr_p(), c)) vh_harness_error("sqrt(b)"); BN_zero(x0); if (!EC_POINT_set_affine_coordinates(g, RPT[12], x0, y0, c)) vh_harness_error("x=0 point"); EC_POINT_copy(RPT[13], RPT[12]); EC_POINT_invert(g, RPT[13], c); BN_free(bb); BN_free(y0); BN_free(x0); }
-	for (int i = 0; i < NPTS; i++) { BN_one(z); if (i == 9) BN_set_word(z, 7); if (i == 10) { BN_copy(z, sr_p()); BN_sub_word(z, 5); } sr_point_to_jac_mont(RPT[i], z, LPT[i].X, LPT[i].Y, LPT[i].Z); }
+	for (int i = 0; i < NPTS; i++) { BN_one(z); if (i == 9) BN_set_word(z, 7); if (i == 10) { BN_copy(z, sr_p()); BN_sub_word(z, 5); } if (i == 14) BN_copy(z, RPI); if (i == 15) BN_mod_lshift1(z, RPI, sr_p(), c); sr_point_to_jac_mont(RPT[i], z, LPT[i].X, LPT[i].Y, LPT[i].Z); }
 	memset(&LPT[1], 0, sizeof LPT[1]); /* the all-zero representation the library itself produces for [0]P */
 	BN_free(k); BN_free(one); BN_free(z);
 }
@@ -176,7 +176,7 @@ static void blk_points(void) {
 			EC_POINT_copy(e, RPT[j]); EC_POINT_invert(g, e, c); EC_POINT_add(g, e, RPT[i], e, c); r = LPT[i]; sm2_z256_point_sub(&r, &r, &LPT[j]); vh_eval(vh_mix(i * 100 + j + 2701)); if (!pt_eq(&r, e)) pt_fail("point_sub:result-over-first-operand", i, j, &r);
 			r = LPT[j]; sm2_z256_point_sub(&r, &LPT[i], &r); vh_eval(vh_mix(i * 100 + j + 2801)); if (!pt_eq(&r, e)) pt_fail("point_sub:result-over-second-operand", i, j, &r); }
 		/* affine second operand: normalised points only ((0,0) encodes infinity) */
-		if (j == 0 || (j >= 2 && j <= 8) || j >= 11) { SM2_Z256_AFFINE_POINT af; memset(&af, 0, sizeof af); if (j) { memcpy(af.x, LPT[j].X, 32); memcpy(af.y, LPT[j].Y, 32); }
+		if (j == 0 || (j >= 2 && j <= 8) || (j >= 11 && j <= 13)) { SM2_Z256_AFFINE_POINT af; memset(&af, 0, sizeof af); if (j) { memcpy(af.x, LPT[j].X, 32); memcpy(af.y, LPT[j].Y, 32); }
 			int ok_add = 1, ok_sub = 1; sm2_z256_point_add_affine(&r, &LPT[i], &af); EC_POINT_add(g, e, RPT[i], RPT[j], c); vh_eval(vh_mix(i * 100 + j + 3001)); if (!pt_eq(&r, e)) { ok_add = 0; pt_fail("point_add_affine", i, j, &r); }
 			sm2_z256_point_sub_affine(&r, &LPT[i], &af); EC_POINT_copy(e, RPT[j]); EC_POINT_invert(g, e, c); EC_POINT_add(g, e, RPT[i], e, c); vh_eval(vh_mix(i * 100 + j + 4001)); if (!pt_eq(&r, e)) { ok_sub = 0; pt_fail("point_sub_affine", i, j, &r); }
 			/* in place; only where the separate-buffer call is right (its failures are reported above) */ r = LPT[i]; sm2_z256_point_sub_affine(&r, &r, &af); vh_eval(vh_mix(i * 100 + j + 4501)); if (ok_sub && !pt_eq(&r, e)) pt_fail("point_sub_affine:in-place", i, j, &r); r = LPT[i]; sm2_z256_point_add_affine(&r, &r, &af); EC_POINT_add(g, e, RPT[i], RPT[j], c); vh_eval(vh_mix(i * 100 + j + 3501)); if (ok_add && !pt_eq(&r, e)) pt_fail("point_add_affine:in-place", i, j, &r);
@@ -215,11 +215,11 @@ static void scalar_case(const BIGNUM *k, const char *what) {
 	const EC_GROUP *g = sr_group(); BN_CTX *c = sr_ctx(); uint64_t kl[4]; sr_bn_to_limbs(kl, k); EC_POINT *e = EC_POINT_new(g); SM2_Z256_POINT r; char key[128];
 	uint64_t kh = vh_hash(kl, 32, 0);
 	sm2_z256_point_mul_generator(&r, kl); EC_POINT_mul(g, e, k, NULL, NULL, c); vh_eval(vh_mix(kh + 1)); if (!pt_eq(&r, e)) { snprintf(key, sizeof key, "C13:point_mul_generator:%s", what); vh_viol(key, "\"k\":\"%s\"", lhex(kl)); }
-	static const int PI[] = { 2, 5, 9, 10 }; /* G, P, P(Z=7), G(Z!=1) */
-	for (int pi = 0; pi < 4; pi++) { int i = PI[pi]; EC_POINT_mul(g, e, NULL, RPT[i], k, c);
+	static const int PI[] = { 2, 5, 9, 10, 14, 15 }; /* G, P, P(Z=7), G(Z!=1), P and G with the stored Z word 1 / 2 */
+	for (int pi = 0; pi < 6; pi++) { int i = PI[pi]; EC_POINT_mul(g, e, NULL, RPT[i], k, c);
 		sm2_z256_point_mul(&r, kl, &LPT[i]); vh_eval(vh_mix(kh + 10 + pi)); if (!pt_eq(&r, e)) { snprintf(key, sizeof key, "C13:point_mul:%s:%s", PNAME[i], what); vh_viol(key, "\"k\":\"%s\"", lhex(kl)); }
 		SM2_Z256_POINT T[16]; sm2_z256_point_mul_pre_compute(&LPT[i], T); sm2_z256_point_mul_ex(&r, kl, T); vh_eval(vh_mix(kh + 20 + pi)); if (!pt_eq(&r, e)) { snprintf(key, sizeof key, "C13:point_mul_ex:%s:%s", PNAME[i], what); vh_viol(key, "\"k\":\"%s\"", lhex(kl)); }
-		if (pi < 2) { /* [k]P + [s]G for s in {k, 1, n-k} */ BIGNUM *s = BN_new(); for (int sv = 0; sv < 3; sv++) { if (sv == 0) BN_copy(s, k); else if (sv == 1) BN_one(s); else { BN_nnmod(s, k, sr_n(), c); BN_sub(s, sr_n(), s); BN_mask_bits(s, 256); }
+		if (pi < 2 || pi == 4) { /* [k]P + [s]G for s in {k, 1, n-k} */ BIGNUM *s = BN_new(); for (int sv = 0; sv < 3; sv++) { if (sv == 0) BN_copy(s, k); else if (sv == 1) BN_one(s); else { BN_nnmod(s, k, sr_n(), c); BN_sub(s, sr_n(), s); BN_mask_bits(s, 256); }
 			uint64_t sl[4]; sr_bn_to_limbs(sl, s); sm2_z256_point_mul_sum(&r, kl, &LPT[i], sl); EC_POINT_mul(g, e, s, RPT[i], k, c); vh_eval(vh_mix(kh + 30 + pi * 3 + sv)); if (!pt_eq(&r, e)) { snprintf(key, sizeof key, "C13:point_mul_sum:%s:%s:s%d", PNAME[i], what, sv); vh_viol(key, "\"t\":\"%s\",\"s\":\"%s\"", lhex(kl), lhex(sl)); } } BN_free(s); }
 	}
 	EC_POINT_free(e);
@@ -239,9 +239,9 @@ static void blk_scalars(void) {
 }
 static void body(void) { blk_unary(); blk_squares(); blk_points(); blk_coincident(); blk_scalars(); blk_binary(); }
 int main(int argc, char **argv) {
-	vh_init(argc, argv); if (!freopen("/dev/null", "w", stderr)) {} sr_init(); build_ops(); build_points();
+	vh_init(argc, argv); if (!freopen("/dev/null", "w", stderr)) {} sr_init(); build_ops();
 	T1 = BN_new(); T2 = BN_new(); T3 = BN_new(); RP = BN_new(); RN = BN_new(); RPI = BN_new(); RNI = BN_new(); M256 = BN_new(); BN_set_bit(M256, 256);
-	BN_mod(RP, M256, sr_p(), sr_ctx()); BN_mod(RN, M256, sr_n(), sr_ctx()); BN_mod_inverse(RPI, RP, sr_p(), sr_ctx()); BN_mod_inverse(RNI, RN, sr_n(), sr_ctx());
+	BN_mod(RP, M256, sr_p(), sr_ctx()); BN_mod(RN, M256, sr_n(), sr_ctx()); BN_mod_inverse(RPI, RP, sr_p(), sr_ctx()); BN_mod_inverse(RNI, RN, sr_n(), sr_ctx()); build_points();
 	vh_guarded("C13", body, 120);
 	return vh_finish();
 }
